@@ -41,6 +41,7 @@ BEFORE_LOOP = '''
         let ghost mut k: int = 0;
         proof {
             lemma_geom_arith(n_components as int, params.bits_per_component as usize as int, columns as int);
+            lemma_pixel_bytes_forms(params);
             assert(stride == 0 || 1 <= gbpp <= stride);
             lemma_rows_fit(0, stride as int, enc.len() as int);
             lemma_mul_step(0, stride as int);
@@ -116,7 +117,7 @@ FLATE = {'kind': 'fn', 'file': E, 'name': 'flate_decode', 'props': PROPS,
     'loops': {1: ROW_LOOP},
     'rewrites': [
         # R1 ghost: names for the inflated bytes and the pixel distance passed to `unfilter` (captured from the call)
-        {'rule': 'R1', 'find': 'let inp = decoded;', 'replace': 'let inp = decoded; let ghost enc = inp@; proof { axiom_vec_u8_len(&inp); lemma_geom_arith(n_components as int, params.bits_per_component as usize as int, columns as int); }'},
+        {'rule': 'R1', 'find': 'let inp = decoded;', 'replace': 'let inp = decoded; let ghost enc = inp@; proof { axiom_vec_u8_len(&inp); lemma_geom_arith(n_components as int, params.bits_per_component as usize as int, columns as int); lemma_component_bytes(n_components as int, params.bits_per_component as usize as int); }'},
         {'rule': 'R1', 'regex': r'(let mut last_out_off = 0;)(.*?)(while [^{;]*?)(.*?unfilter\(predictor, (\w+), prev_row, row_in, row_out\);)',
          'replace': r'\1 let ghost gbpp: int = \5 as int;' + BEFORE_LOOP.replace('\\', r'\\') + r'\2\3\4'},
         {'rule': 'R1', 'regex': r'let predictor = PredictorType::from_u8\(', 'replace': BODY_START.replace('\\', r'\\') + 'let predictor = PredictorType::from_u8('},
